@@ -280,6 +280,18 @@ func Main(args []string) int {
 		fmt.Println("anchors.lock.json written for", RepoDir())
 		return 0
 	}
+	if args[0] == "--funcs" && len(args) > 1 {
+		fs := modelledFuncs(VerifDir(), RepoDir(), args[1])
+		var ks []string
+		for k := range fs {
+			ks = append(ks, k)
+		}
+		sort.Strings(ks)
+		for _, k := range ks {
+			fmt.Println(k)
+		}
+		return 0
+	}
 	id := args[0]
 	p := Lookup(id)
 	if p == nil {
@@ -640,6 +652,7 @@ func runCheck(ctx *Ctx) int {
 	}
 
 	// ---- a broken proof or correspondence: search harder for a failing input
+	driftAlarm := len(drift) > 0 && os.Getenv("VERIF_DRIFT_POLICY") != "escalate"
 	brokenTie := !lr.ProofOK || mismatches > 0
 	escalated := 0
 	if brokenTie && unknown() == 0 && p.Gen != nil {
@@ -677,6 +690,17 @@ func runCheck(ctx *Ctx) int {
 		} else {
 			fmt.Printf("VIOLATION property=%s replay=%s\n", p.ID, f.replay)
 		}
+	}
+	if driftAlarm && !brokenTie && violations == 0 {
+		// proofs build and the sampled correspondence agrees, but the modelled functions are
+		// no longer the text the model was validated against, and the enlarged search found
+		// no failing input: the property is no longer shown to hold of THIS code.
+		rf := replayFile{Property: p.ID, Kind: "source-drift", RunSeed: ctx.Seed, Tier: ctx.Tier, Broken: drift,
+			Detail: fmt.Sprintf("the source of %d modelled function(s) differs from the tree the model was validated on (anchors.lock.json): %s; the proofs are about the model, the correspondence run on %d cases and the property oracle found no disagreement and no failing input", len(drift), strings.Join(drift, ", "), nCases)}
+		path := writeReplay(verif, rf)
+		fmt.Printf("# %s\n", rf.Detail)
+		fmt.Printf("VIOLATION property=%s replay=%s no-failing-input-found\n", p.ID, path)
+		violations++
 	}
 	if brokenTie && violations == 0 {
 		rf := replayFile{Property: p.ID, Kind: "proof", RunSeed: ctx.Seed, Tier: ctx.Tier, Broken: lr.Broken}
@@ -754,7 +778,7 @@ func runCheck(ctx *Ctx) int {
 	}
 	if len(drift) > 0 {
 		cov["anchor_drift"] = drift
-		cov["anchor_drift_note"] = "anchored source differs from the blessed tree (anchors.lock.json): thorough-tier generators and an enlarged budget were used; drift alone is never an alarm"
+		cov["anchor_drift_note"] = "modelled functions differ from the tree the model was validated on (anchors.lock.json): thorough-tier generators and an enlarged budget were used; if no failing input is found the run ends with VIOLATION … no-failing-input-found naming them"
 	}
 	if lr.FactsNote != "" {
 		cov["facts"] = strings.TrimSpace(lr.FactsNote)
